@@ -170,6 +170,31 @@ def entries() -> list[Entry]:
                 raise EOFError
             return data
 
+    from easynetwork.exceptions import IncrementalDeserializeError
+    from easynetwork.serializers.abc import AbstractIncrementalPacketSerializer
+
+    class TLV(AbstractIncrementalPacketSerializer[str, str]):
+        """Only the incremental half is written: serialize() / deserialize() are the inherited defaults (built on the incremental methods)."""
+
+        def incremental_serialize(self, packet: str) -> Any:
+            body = packet.encode("utf-8")
+            yield len(body).to_bytes(1, "big")
+            yield body
+
+        def incremental_deserialize(self) -> Any:
+            data = yield
+            while not data:
+                data = yield
+            n = data[0]
+            data = data[1:]
+            while len(data) < n:
+                data += yield
+            body, rest = data[:n], data[n:]
+            try:
+                return body.decode("utf-8"), rest
+            except UnicodeError as exc:
+                raise IncrementalDeserializeError(str(exc), remaining_data=rest) from exc
+
     class PointConverter(AbstractPacketConverter[Point, dict[str, Any]]):
         def create_from_dto_packet(self, packet: Any) -> Point:
             try:
@@ -261,6 +286,7 @@ def entries() -> list[Entry]:
         Entry("AutoSeparatedPacketSerializer(subclass,'|;|')", Upper, accepted(Upper, lambda rng: _text(rng, 1, 8, string.ascii_letters + "|;é") + rng.choice(["", "", "|", "|;", ";", ";|"])), buffered=True),
         Entry("AutoSeparatedPacketSerializer(subclass,'aa')", SelfOverlap, accepted(SelfOverlap, gen_no_double_a), buffered=True),
         Entry("FileBasedPacketSerializer(subclass)", LengthPrefixed, gen_bytes(0, 20), buffered=True),
+        Entry("AbstractIncrementalPacketSerializer(subclass, default one-shot methods)", TLV, lambda rng: _text(rng, 0, 12, string.ascii_letters + "é"), buffered=False),
         Entry("Base64(JSON)", lambda: Base64EncoderSerializer(JSONSerializer()), _json_value, buffered=True),
         Entry("Base64(pickle,checksum,standard)", lambda: Base64EncoderSerializer(PickleSerializer(unpickler_cls=_PyUnpickler), alphabet="standard", checksum=True), _json_value, buffered=True),
         Entry("Base64(JSON,checksum=key)", lambda: Base64EncoderSerializer(JSONSerializer(), checksum=__import__("base64").urlsafe_b64encode(b"k" * 32)), _json_value, buffered=True),
